@@ -488,6 +488,122 @@ def rule_iter_map_collect(text, dropped):
     return rx.sub(rep, text)
 
 
+def _postfix_start(toks, match, i):
+    """index of the first token of the postfix expression chain that ends just before toks[i] (a `.`)."""
+    j = i - 1
+    while j >= 0:
+        t = toks[j]
+        if t.kind == 'punct' and t.text in (')', ']'):
+            j = match[j] - 1
+            continue
+        if t.kind == 'ident' and t.text not in ('let', 'return', 'match', 'if', 'in', 'else', 'mut'):
+            j -= 1
+            continue
+        if t.kind == 'punct' and t.text == '.':
+            j -= 1
+            continue
+        if t.kind == 'punct' and t.text == ':' and j > 0 and toks[j - 1].text == ':':
+            j -= 2
+            continue
+        break
+    return j + 1
+
+
+def rule_option_inspect(text, dropped):
+    """`RECV.inspect(|NAME| BODY)` on an Option  ->  `{ let verif_inspected = RECV; if let Some(NAME) = verif_inspected.as_ref() { BODY; } verif_inspected }`"""
+    n = 0
+    while True:
+        if n > 20:
+            raise SliceError('option-inspect: too many rewrites')
+        toks, match = _stmt_tokens(text)
+        target = None
+        for i in range(len(toks) - 5):
+            if (toks[i].text == '.' and toks[i + 1].kind == 'ident' and toks[i + 1].text == 'inspect' and toks[i + 2].text == '('
+                    and toks[i + 3].text == '|' and toks[i + 4].kind == 'ident' and toks[i + 5].text == '|'):
+                target = i
+                break
+        if target is None:
+            break
+        i = target
+        r0 = _postfix_start(toks, match, i)
+        close = match[i + 2]
+        recv = text[toks[r0].s:toks[i].s]
+        name = toks[i + 4].text
+        body = text[toks[i + 5].e:toks[close].s]
+        new = f'{{ let verif_inspected = {recv}; if let Some({name}) = verif_inspected.as_ref() {{ {body}; }} verif_inspected }}'
+        old = text[toks[r0].s:toks[close].e]
+        d = old.count('\n') - new.count('\n')
+        if d < 0:
+            raise SliceError('option-inspect would add lines')
+        text = text[:toks[r0].s] + new + '\n' * d + text[toks[close].e:]
+        n += 1
+    if n == 0:
+        raise SliceError('rule option-inspect did not apply')
+    dropped.append(('option-inspect', f'{n}x Option::inspect(closure) written as if-let on the same value'))
+    return text
+
+
+def rule_lock_scope(text, dropped):
+    """Make the lifetime of a shard-lock guard explicit and count it in the ghost variable `verif_locks`.
+       `RECV.write().with(|mut NAME| BODY)`  ->  `{ let mut NAME = RECV.verif_lock_write(); proof { verif_locks = verif_locks + 1; }
+                                                   let verif_with_r = BODY; proof { verif_locks = verif_locks - 1; } verif_with_r }`
+       `RECV.write().METHOD(ARGS)` (temporary guard) -> the same with a guard named verif_guard.
+       (`with` consumes the guard: the lock is released when it returns; a temporary guard is released at the end of the
+       full expression.) Any other use of `.write()` / `.read()` is left alone and will not compile against the stand-ins."""
+    guard = 0
+    n = 0
+    while True:
+        guard += 1
+        if guard > 40:
+            raise SliceError('lock-scope: too many rewrites')
+        toks, match = _stmt_tokens(text)
+        target = None
+        for i in range(len(toks) - 6):
+            if not (toks[i].text == '.' and toks[i + 1].kind == 'ident' and toks[i + 1].text in ('write', 'read')
+                    and toks[i + 2].text == '(' and toks[i + 3].text == ')' and toks[i + 4].text == '.'
+                    and toks[i + 5].kind == 'ident' and toks[i + 6].text == '('):
+                continue
+            j = _postfix_start(toks, match, i) - 1
+            target = (i, j + 1)
+            break
+        if target is None:
+            break
+        i, r0 = target
+        recv = text[toks[r0].s:toks[i].s]
+        kind = toks[i + 1].text
+        call_open = i + 6
+        call_close = match[call_open]
+        inc = ' proof { verif_locks = verif_locks + 1; } '
+        dec = ' proof { verif_locks = verif_locks - 1; } '
+        if toks[i + 5].text == 'with':
+            if toks[i + 7].text != '|':
+                raise SliceError('lock-scope: `with` without a closure literal')
+            k = i + 8
+            names = []
+            while toks[k].text != '|':
+                names.append(toks[k].text)
+                k += 1
+            name = [x for x in names if x != 'mut'][-1]
+            body = text[toks[k].e:toks[call_close].s]
+            m = 'mut ' if kind == 'write' else ''
+            new = (f'{{ let {m}{name} = {recv}.verif_lock_{kind}();{inc}let verif_with_r = {body};{dec}verif_with_r }}')
+        else:
+            meth = toks[i + 5].text
+            args = text[toks[call_open].s:toks[call_close].e]
+            m = 'mut ' if kind == 'write' else ''
+            new = (f'{{ let {m}verif_guard = {recv}.verif_lock_{kind}();{inc}let verif_with_r = verif_guard.{meth}{args};{dec}verif_with_r }}')
+        old = text[toks[r0].s:toks[call_close].e]
+        d = old.count('\n') - new.count('\n')
+        if d < 0:
+            raise SliceError('lock-scope would add lines')
+        text = text[:toks[r0].s] + new + '\n' * d + text[toks[call_close].e:]
+        n += 1
+    if n == 0:
+        raise SliceError('rule lock-scope did not apply')
+    dropped.append(('lock-scope', f'{n} lock guard scopes made explicit (guard binding + ghost counter verif_locks)'))
+    return text
+
+
 RULES = {
     'drop-tracing': rule_drop_tracing,
     'assert-eq': rule_assert_eq,
@@ -507,6 +623,8 @@ RULES = {
     'iter-map-collect': rule_iter_map_collect,
     'pub-fields': rule_pub_fields,
     'chunks-enumerate': rule_chunks_enumerate,
+    'lock-scope': rule_lock_scope,
+    'option-inspect': rule_option_inspect,
 }
 
 
